@@ -7,6 +7,8 @@ mod systems;
 mod c11;
 #[cfg(not(feos_verif_shuttle))]
 mod c12;
+#[cfg(not(feos_verif_shuttle))]
+mod c18;
 
 use common::*;
 use std::sync::Arc;
@@ -90,6 +92,11 @@ fn dispatch(engine: &str, opts: &Options, replay_file: Option<&str>) -> i32 {
 #[cfg(not(feos_verif_shuttle))]
 fn dispatch(engine: &str, opts: &Options, replay_file: Option<&str>) -> i32 {
     match engine {
+        "c18-debug" => {
+            c18::debug_replay(replay_file.expect("--replay"));
+            0
+        }
+        "c18-profile" => go(c18::C18, (240, 20_000), opts, replay_file),
         "c12-session" => go(c12::C12 { driver: false, no_faults: false }, (6000, 600_000), opts, replay_file),
         "c12-session-nofault" => go(c12::C12 { driver: false, no_faults: true }, (3000, 300_000), opts, replay_file),
         "c12-driver" => go(c12::C12 { driver: true, no_faults: false }, (1500, 100_000), opts, replay_file),
